@@ -248,9 +248,10 @@ def sched_block(batch, tag, scn, results, count):
 
 
 # ------------------------------------------------------------------------------------------ property-level classification
-def same_key_v0(a, b):
-    """same cache key on the tree before fix F16: operation, LookupOptions.String(), argument UUIDs"""
-    return a["q"]["op"] == b["q"]["op"] and a["q"]["args"] == b["q"]["args"] and a["lostr"] == b["lostr"]
+def same_key(a, b, fixed_offset):
+    """same cache key: operation, LookupOptions.String(), argument UUIDs (before fix F16), plus Offset (after it)"""
+    return a["q"]["op"] == b["q"]["op"] and a["q"]["args"] == b["q"]["args"] and a["lostr"] == b["lostr"] and \
+        (not fixed_offset or a["q"]["lo"]["offset"] == b["q"]["lo"]["offset"])
 
 
 def same_but_offset(a, b):
@@ -261,7 +262,7 @@ def same_but_offset(a, b):
     return qa == qb
 
 
-def classify_seq(ops, i):
+def classify_seq(ops, i, fixed_offset):
     """Why does read i of a (fault-free) history differ from the plain store?  Returns a finding class or None."""
     x = ops[i]
     j = i - 1
@@ -273,7 +274,7 @@ def classify_seq(ops, i):
                 return None           # own write cleared the cache: nothing older can explain a stale answer
             if o["g"] == x["g"]:
                 other_write = True
-        elif o["k"] == "read" and o["h"] == x["h"] and same_key_v0(o, x):
+        elif o["k"] == "read" and o["h"] == x["h"] and same_key(o, x, fixed_offset):
             if o["memo"]["elems"] == x["memo"]["elems"] and o["memo"]["bool"] == x["memo"]["bool"] and not x["memo"]["err"]:
                 if o["q"] == x["q"]:
                     if other_write:
@@ -289,7 +290,7 @@ def classify_seq(ops, i):
     return None
 
 
-def classify_fault(ops, i):
+def classify_fault(ops, i, fixed_offset):
     """fault-injection histories: an error-free answer that differs from the plain store"""
     x = ops[i]
     j = i - 1
@@ -297,7 +298,7 @@ def classify_fault(ops, i):
         o = ops[j]
         if o["k"] in ("add", "remove") and o["h"] == x["h"]:
             return None
-        if o["k"] == "read" and o["h"] == x["h"] and same_key_v0(o, x) and o["memo"]["elems"] == x["memo"]["elems"]:
+        if o["k"] == "read" and o["h"] == x["h"] and same_key(o, x, fixed_offset) and o["memo"]["elems"] == x["memo"]["elems"]:
             if any(e.get("fault") for e in o["fwd"]) and o["memo"]["err"] and x["memo"]["elems"]:
                 return "truncated_result_cached"
         j -= 1
@@ -499,9 +500,9 @@ def run(ctx):
             if c["faults"]:
                 if o["memo"]["err"] and any(e.get("fault") for e in o["fwd"]):
                     continue   # the injected failure surfaced as an error: not a disagreement
-                cls = classify_fault(ops, i) or classify_seq(ops, i)
+                cls = classify_fault(ops, i, fixed_offset) or classify_seq(ops, i, fixed_offset)
             else:
-                cls = classify_seq(ops, i)
+                cls = classify_seq(ops, i, fixed_offset)
             ndiff += 1
             if cls in open_classes:
                 reproduced.setdefault(cls, {"history": c["id"], "seed": c["seed"], "op": i})
@@ -642,11 +643,12 @@ def search(ctx, broken):
     store disagree outside the open findings"""
     try:
         open_classes = {f["class"] for f in vcheck.known_findings("C19")}
+        fixed_offset = "offset_key" not in open_classes
         for c in hmemo(["-mode", "seq", "-n", "400", "-seed", str(ctx.seed)]):
             for i, o in enumerate(c["ops"]):
                 if o["k"] == "read" and (o["memo"]["elems"], o["memo"]["bool"], o["memo"]["err"]) != \
                         (o["plain"]["elems"], o["plain"]["bool"], o["plain"]["err"]):
-                    if classify_seq(c["ops"], i) not in open_classes:
+                    if classify_seq(c["ops"], i, fixed_offset) not in open_classes:
                         return {"history": c, "op_index": i}
     except Exception:
         return None
